@@ -14,7 +14,7 @@ from mc import core, seams, simsock
 
 PROP = 'C13'
 TECH = 'explicit-state BFS over two real TcpConnection objects on a simulated socket pair: byte-granular transfer events and poll events in every order; corruption injected at every frame position'
-ASSUME = ['plans: plain = established pair; c: = A dials and sends from its on-connected callback; r: = the peer closes once at any moment, A dials again from inside its onDisconnected callback and queues its next message there',
+ASSUME = ['plans: plain = established pair; c: = A dials and sends from its on-connected callback; r: = the peer closes once at any moment, A dials again from inside its onDisconnected callback and queues its next message there; f: = the sender closes after everything was handed to its socket (the end of the stream arrives after the data)',
           'send buffer of 16 bytes and recv size of 8 bytes so that messages are smaller than, around and larger than the buffers',
           'level-triggered poll: WRITE ready iff the socket has free space, READ ready iff data/EOF/error is pending',
           'virtual clock frozen except in t: plans (slow link: the receiver has a read timeout of 10 s and up to two steps of 6 s pass, each only after the receiver has read new bytes, so a connection on which bytes keep arriving must stay up)']
@@ -131,7 +131,8 @@ class W(object):
 
 
 class FramingModel(object):
-    def __init__(self, plan, corrupt_at=None, corrupt_kind=None, sndcap=16, recvsize=8, connect=False, reconnect=False, slow=False):
+    def __init__(self, plan, corrupt_at=None, corrupt_kind=None, sndcap=16, recvsize=8, connect=False, reconnect=False, slow=False, fin=False):
+        self.fin = fin                    # the sender closes the connection once everything is handed to its socket
         self.slow = slow                  # slow link: virtual time passes while a frame is under way (the receiver has a read timeout)
         self.reconnect = reconnect        # the peer closes once; A's onDisconnected callback dials again and sends
         self.connect = connect            # A dials (non-blocking connect) and sends plan[0] from its on-connected callback
@@ -203,6 +204,8 @@ class FramingModel(object):
             return [('est',)]
         if self.reconnect and w.epoch == 0 and w.B.state == 2:
             evs.append(('closeB',))
+        if self.fin and w.next == len(self.plan) and w.A.state == 2 and w.A.getSendBufferSize() == 0:
+            evs.append(('closeA',))
         if w.next < len(self.plan) and w.A.state == 2 and (w.next > 0 or not self.connect):
             if self.corrupt_at == w.next:
                 if w.A.getSendBufferSize() == 0:
@@ -222,7 +225,7 @@ class FramingModel(object):
             if sub is None or s.state == 'closed':
                 continue
             mask = 0
-            if (s.rcv or s.eof or s.err) and sub[1] & READ:
+            if (s.rcv or s.eof_ready() or s.err) and sub[1] & READ:
                 mask |= READ
             if len(s.out) < s.cap and sub[1] & WRITE:
                 mask |= WRITE
@@ -260,6 +263,8 @@ class FramingModel(object):
                 w.established = True
             elif ev[0] == 'closeB':
                 w.B.disconnect()
+            elif ev[0] == 'closeA':
+                w.A.disconnect()
             elif ev[0] == 'send':
                 m = MESSAGES[self.plan[w.next]]
                 (w.sent2 if w.epoch == 1 else w.sent).append(m)
@@ -287,6 +292,14 @@ class FramingModel(object):
     def check(self, w):
         if self.reconnect:
             return self.check_reconnect(w)
+        if self.fin:
+            d = w.rec.delivered
+            if d != w.sent[:len(d)]:
+                return 'C13 delivered %r, sent %r' % (d, w.sent)
+            if not self.events(w) and w.A.state == 0 and d != w.sent:
+                return ('C13 the sender closed the connection after everything it sent had been handed to its socket; the bytes and '
+                        'the end of the stream arrived, but only %r of %r were delivered' % (d, w.sent))
+            return None
         d = w.rec.delivered
         limit = len(w.sent)
         if w.corrupt_idx is not None:
@@ -337,6 +350,8 @@ def make_model(plan, at=None, kind=None):
         return FramingModel(plan[2:], at, kind, connect=True)
     if plan.startswith('r:'):
         return FramingModel(plan[2:], at, kind, reconnect=True)
+    if plan.startswith('f:'):
+        return FramingModel(plan[2:], at, kind, fin=True)
     if plan.startswith('t:'):
         return FramingModel(plan[2:], at, kind, slow=True)
     return FramingModel(plan, at, kind)
@@ -391,16 +406,16 @@ def main(tier, seed, job_filter=None):
     rep = core.Report(PROP, tier, seed, TECH, ASSUME)
     q = tier == 'quick'
     if q:
-        clean = ['n', 'ns', 'e', 's', 'm', 'es', 'se', 'c:s', 'c:m', 'c:se', 'r:e', 'r:s', 't:e']
+        clean = ['n', 'ns', 'e', 's', 'm', 'es', 'se', 'c:s', 'c:m', 'c:se', 'r:e', 'r:s', 't:e', 'f:e', 'f:s']
         cplans = ['s', 'es']
     else:
-        clean = plans_of(2, 'esm') + ['n', 'ns', 'sn', 'nn', 'L', 'eL', 'Ls'] + ['ese', 'sms', 'ems'] + ['c:s', 'c:m', 'c:L', 'c:se', 'c:ms', 'r:e', 'r:s', 'r:m', 'r:es', 'r:ss', 't:e', 't:s', 't:m']
+        clean = plans_of(2, 'esm') + ['n', 'ns', 'sn', 'nn', 'L', 'eL', 'Ls'] + ['ese', 'sms', 'ems'] + ['c:s', 'c:m', 'c:L', 'c:se', 'c:ms', 'r:e', 'r:s', 'r:m', 'r:es', 'r:ss', 't:e', 't:s', 't:m', 'f:e', 'f:s', 'f:se', 'f:m']
         cplans = plans_of(2, 'esm') + ['m', 's', 'e']
     jobs = [(job, dict(name='framing:clean:%s' % p, plans=[p], corrupt=False)) for p in clean]
     for p in cplans:
         for k in CORRUPTIONS:
             jobs.append((job, dict(name='framing:corrupt:%s:%s' % (p, k), plans=[p], corrupt=True, kinds=[k])))
-    jobs.sort(key=lambda j: -len(j[1]['plans'][0].replace('c:', '').replace('r:', '').replace('t:', '')))
+    jobs.sort(key=lambda j: -len(j[1]['plans'][0].replace('c:', '').replace('r:', '').replace('t:', '').replace('f:', '')))
     if job_filter:
         jobs = [j for j in jobs if job_filter in j[1]['name']]
     rep.replay_fn = replay_trace
